@@ -134,7 +134,7 @@ def grid_history_case(case):
 
 
 # ---------------------------------------------------------------------------------------------- (ii) xvg
-def make_xvg(h, total, nleg, nrows, rot):
+def make_xvg(h, total, nleg, nrows, rot, times="distinct"):
     legends = [LEGENDS[(rot + i) % len(LEGENDS)] for i in range(nleg)]
     n_at = max(total - h, nleg)
     lines = [f"# comment line {i} of the GROMACS banner" for i in range(h)]
@@ -146,6 +146,10 @@ def make_xvg(h, total, nleg, nrows, rot):
     for rI in range(nrows):
         vals = [VALUES[(rI * 3 + c * 5 + rot) % len(VALUES)] for c in range(nleg)]
         tm = f"{rI * 0.5:.6f}"
+        if times == "rerun":          # gmx rerun of single frames: every line reports t = 0
+            tm = "0.000000"
+        elif times == "restart" and rI >= 1:   # a continued run repeats the restart frame's time stamp
+            tm = f"{(rI - 1) * 0.5:.6f}"
         rows.append([tm] + vals)
         lines.append("    " + "  ".join(f"{x:>12}" for x in [tm] + vals))
     return "\n".join(lines) + "\n", legends, rows
@@ -153,8 +157,9 @@ def make_xvg(h, total, nleg, nrows, rot):
 
 def xvg_case(case):
     h, total, nleg, nrows, rot = case["h"], case["total"], case["nleg"], case["nrows"], case["rot"]
-    pre = f"C20|xvg|hash={h}|header={max(total, h + nleg)}|legends={nleg}|rows={nrows}|rot={rot}"
-    text, legends, rows = make_xvg(h, total, nleg, nrows, rot)
+    pre = f"C20|xvg|hash={h}|header={max(total, h + nleg)}|legends={nleg}|rows={nrows}|rot={rot}" + \
+          ("" if case.get("times", "distinct") == "distinct" else f"|times={case['times']}")
+    text, legends, rows = make_xvg(h, total, nleg, nrows, rot, case.get("times", "distinct"))
     d = tempfile.mkdtemp(prefix="c20x_", dir=case["tmp"])
     vs = []
     try:
@@ -258,6 +263,12 @@ def run(ctx):
                 for nleg in range(1, 11):
                     for nrows in (1, 2, 7):
                         xcs.append({"h": h, "total": total, "nleg": nleg, "nrows": nrows, "rot": (h + nleg + nrows) % 12,
+                                    "tmp": tmp})
+        for times in ("rerun", "restart"):       # repeated time stamps: rows must still be one per data line
+            for h in (0, 5, 13):
+                for nleg in (1, 4, 10):
+                    for nrows in (2, 7):
+                        xcs.append({"h": h, "total": 14, "nleg": nleg, "nrows": nrows, "rot": (h + nleg) % 12, "times": times,
                                     "tmp": tmp})
         if ctx.thorough:
             for h in range(0, 14):
